@@ -452,10 +452,33 @@ let parse_hop (tok : string) : hop =
     HOp (slot, (match op.[0] with
       | 'n' -> OpNext | 'b' -> OpNextBack | 't' -> OpNth (arg ()) | 'u' -> OpNthBack (arg ())
       | 'l' -> OpLen | 'h' -> OpSizeHint | _ -> failwith ("bad iterator op " ^ tok)))
+(* std methods a generator could override (count, last, fold, rfold) and the consuming adapters, applied to a CLONE of a slot after
+   any history: each is the list semantics of the remaining items, expressed as calls on a fresh clone (which takes the next slot
+   number on both sides):  K count = len;  Z last = next_back;  G / D collect / fold = cnt+1 x next;  R / E rev-collect / rfold =
+   cnt+1 x next_back *)
+let expand_hops (cnt : int) (args : string list) : hop list =
+  let nslots = ref 1 in
+  List.concat_map (fun tok ->
+    if tok.[0] = 'c' then (incr nslots; [parse_hop tok])
+    else
+      let ci = String.index tok ':' in
+      let slot = String.sub tok 0 ci in
+      let op = tok.[ci + 1] in
+      if String.contains "KZGDRE" op then begin
+        let m = !nslots in
+        incr nslots;
+        let on o = HOp (nat_of_int m, o) in
+        HClone (nat_of_int (int_of_string slot)) ::
+        (match op with
+         | 'K' -> [on OpLen]
+         | 'Z' -> [on OpNextBack]
+         | 'G' | 'D' -> List.init (cnt + 1) (fun _ -> on OpNext)
+         | _ -> List.init (cnt + 1) (fun _ -> on OpNextBack))
+      end else [parse_hop tok]) args
 let q_iterops (k : int) (it : item) (args : string list) : string =
   res_str (fun c ->
     let cnt = iter_count c in
-    let hs = List.map parse_hop args in
+    let hs = expand_hops (small_int_of_z cnt) args in
     let show mode =
       let step = if !legacy then it_step_legacy w64 mode cnt else it_step w64 mode cnt in
       let obs = run_hist step [ist0] hs in
